@@ -527,7 +527,7 @@ def gen_sched(rng, est_steps=3000):
 
 
 def gen_call_faults(rng, world, p_fail=0.25,
-                    excs=("E1", "E1", "E2", "B1", "SystemExit", "KeyboardInterrupt", "CallError", "NodeError", "F1", "F2"),
+                    excs=("E1", "E1", "E2", "B1", "SystemExit", "KeyboardInterrupt", "CallError", "NodeError", "F1", "F2", "Z1"),
                     flaky=False):
     calls = {}
     for n in world["nodes"]:
